@@ -1,3 +1,5 @@
+pub mod c01;
+pub mod c02;
 pub mod c03;
 pub mod c04;
 pub mod c05;
@@ -7,6 +9,8 @@ pub mod c08;
 pub mod c09;
 pub mod c10;
 pub mod c11;
+pub mod c12;
+pub mod c13;
 pub mod c14;
 pub mod c15;
 pub mod c20;
@@ -16,6 +20,8 @@ use crate::Ctx;
 
 pub fn run(s: &mut Session, ctx: &Ctx, prop: &str) -> bool {
     match prop {
+        "C01" => c01::run(s, ctx),
+        "C02" => c02::run(s, ctx),
         "C03" => c03::run(s, ctx),
         "C04" => c04::run(s, ctx),
         "C05" => c05::run(s, ctx),
@@ -25,6 +31,8 @@ pub fn run(s: &mut Session, ctx: &Ctx, prop: &str) -> bool {
         "C09" => c09::run(s, ctx),
         "C10" => c10::run(s, ctx),
         "C11" => c11::run(s, ctx),
+        "C12" => c12::run(s, ctx),
+        "C13" => c13::run(s, ctx),
         "C14" => c14::run(s, ctx),
         "C15" => c15::run(s, ctx),
         "C20" => c20::run(s, ctx),
